@@ -5,7 +5,8 @@
     (threads 1..16, runtime flavour, channel 0/1/100, in-memory/temp-file staging, iterator/file/parallel
     source) with seeded and role-biased delays injected at the hook points; (3) the multi-threaded
     converters are compared with their single-threaded output.  TLC judges that all digests agree.
-(4) implementation -> spec: the hook events of traced runs are validated against Pipeline.tla (Trace_Pipeline)."""
+(4) implementation -> spec: the hook events of traced runs are validated against Pipeline.tla (Trace_Pipeline);
+(5) the same for the executions of the repository's OWN tests (run with the hook guard on and BIGTOOLS_VERIF_TRACE)."""
 import json, random, hashlib
 from concurrent.futures import ThreadPoolExecutor
 from pyverif.core import *
@@ -47,13 +48,13 @@ def instances(trace):
     return out
 
 
-def validate_pipeline_traces(run, traced):
+def validate_pipeline_traces(run, traced, label="pipeline_trace_validation", min_lanes=20, min_multi=3):
     """implementation -> spec: every pipeline instance of every traced run is validated against Pipeline.tla
     by Trace_Pipeline (one TLC run per instance: the constants come from the trace header)."""
     jobs = []
     for ri, (desc, trace) in enumerate(traced):
         for ii, inst in enumerate(instances(trace)):
-            path = os.path.join(run.wd, "pl_%d_%d.ndjson" % (ri, ii))
+            path = os.path.join(run.wd, "%s_%d_%d.ndjson" % (label[:4], ri, ii))
             with open(path, "w") as f:
                 f.write(json.dumps({"secs": inst["secs"], "ev": "header", "k": 0, "st": 0}) + "\n")
                 for e in inst["events"]:
@@ -62,7 +63,7 @@ def validate_pipeline_traces(run, traced):
 
     def one(j):
         ri, ii, path, inst, desc = j
-        r = tlc("Trace_Pipeline", "Trace_Pipeline.cfg", os.path.join(run.wd, "tlc_pl_%d_%d" % (ri, ii)), env={"TRACE": path}, workers=1, timeout=600,
+        r = tlc("Trace_Pipeline", "Trace_Pipeline.cfg", os.path.join(run.wd, "tlc_%s_%d_%d" % (label[:4], ri, ii)), env={"TRACE": path}, workers=1, timeout=600,
                 xmx="2g", dfs=True, collect_replays=False)
         return j, r
     with ThreadPoolExecutor(max_workers=max(2, NCPU // 2)) as ex:
@@ -85,12 +86,12 @@ def validate_pipeline_traces(run, traced):
             rej.append({"config": desc, "instance": inst["key"], "secs": inst["secs"], "matched_events": max(0, h - 2), "next_event": inst["events"][h - 2] if 0 <= h - 2 < len(inst["events"]) else None})
         else:
             raise ToolError("pipeline trace validation gave no verdict:\n" + r.out[-2000:])
-    run.cov["pipeline_trace_validation"] = {"runs_traced": len(traced), "instances_validated": len(jobs), "accepted": acc, "rejected": len(rej), "lanes": lanes,
+    run.cov[label] = {"runs_traced": len(traced), "instances_validated": len(jobs), "accepted": acc, "rejected": len(rej), "lanes": lanes,
                                             "buffer_writes": writes, "lanes_with_2plus_writes": multi, "tlc_states": states, "rejections": rej[:5]}
     run.cov["states"] += states
     run.cov["traces_validated_against_impl"] += acc
-    if not jobs or lanes < 20 or multi < 3:
-        raise ToolError("vacuity: pipeline traces too thin (%d instances, %d lanes, %d lanes with >= 2 writes)" % (len(jobs), lanes, multi))
+    if not jobs or lanes < min_lanes or multi < min_multi:
+        raise ToolError("vacuity: %s too thin (%d instances, %d lanes, %d lanes with >= 2 writes)" % (label, len(jobs), lanes, multi))
     # a schedule the model does not explain is model drift (the bytes are judged separately), not a violation of C11
     run.drift += len(rej)
     for x in rej[:3]:
@@ -105,6 +106,36 @@ def configs(rng, n, pass_):
                     "source": rng.choice(["iter", "file", "parallel", "parallel"]), "pass": pass_, "seed": rng.randint(1, 10 ** 6),
                     "slow": rng.choice(["none", "owner", "writer", "drop", "none"])})
     return out
+
+
+def repo_tests_part(run):
+    """The repository's OWN test-suite as a source of traces: it is run with the hook guard on and
+    BIGTOOLS_VERIF_TRACE set (one test at a time), and every pipeline instance its writers executed is
+    validated against Pipeline.tla like the harness runs."""
+    import subprocess
+    repo = ALT_REPO or "/repo"
+    target = os.path.join(WORK, "repo_tests" + ("_alt" if ALT_REPO else ""), "target")
+    tr = os.path.join(run.wd, "repo_trace.txt")
+    env = dict(os.environ, BIGTOOLS_VERIF_TRACE=tr, RUSTFLAGS="--cfg bigtools_verif --check-cfg cfg(bigtools_verif)", CARGO_TARGET_DIR=target, CARGO_NET_OFFLINE="true")
+    env.pop("LLVM_PROFILE_FILE", None)
+    t0 = time.time()
+    try:
+        p = subprocess.run(["cargo", "test", "-p", "bigtools", "--offline", "--", "--test-threads", "1"], cwd=repo, env=env, stdout=subprocess.PIPE, stderr=subprocess.STDOUT, text=True, timeout=2400)
+    except subprocess.TimeoutExpired:
+        raise ToolError("the repository's tests did not finish (hook guard on)")
+    if p.returncode != 0:
+        raise ToolError("the repository's tests fail with the hook guard on:\n" + p.stdout[-2500:])
+    passed = sum(int(m) for m in re.findall(r"test result: ok\. (\d+) passed", p.stdout))
+    per = {}
+    for line in open(tr):
+        f = line.split()
+        if len(f) == 4:
+            per.setdefault(f[3], []).append([f[0], int(f[1]), int(f[2])])
+    traced = [({"source": "repository test process", "pid_rank": k}, evs) for k, (pid, evs) in enumerate(sorted(per.items(), key=lambda kv: int(kv[0])))
+              if any(e[0] == "pipe.lane.new" for e in evs)]
+    run.cov["repository_tests_run_with_hooks"] = {"tests_passed": passed, "processes_with_pipeline_events": len(traced), "hook_events": sum(len(v) for v in per.values()),
+                                                   "wall_s": round(time.time() - t0, 1)}
+    validate_pipeline_traces(run, traced, label="repository_tests_trace_validation", min_lanes=10, min_multi=0)
 
 
 def main():
@@ -154,6 +185,7 @@ def main():
                 else:
                     r_.pop("trace")
     validate_pipeline_traces(run, traced)
+    repo_tests_part(run)
     lines, classes = [], {}
     nruns = 0
     for o in obs:
